@@ -120,6 +120,10 @@ def run(tier, seed, replay=None):
         for opaque in (True, False):
             p, lm = progen.expr_program(ch, opaque)
             progs.append((p, "expr%s:%d" % ("" if opaque else "-let", i), ("expr", ch, lm)))
+    for c in rex["special"]:
+        if "128" not in c["ty"] and "256" not in c["ty"]:
+            p, lm = progen.expr_program([c], True)
+            progs.append((p, "solo:%s%s%s" % (c["ty"], c["op"], c["sp"]), ("solo", c, lm)))
     for name, p in corpus.programs():
         progs.append((p, "corpus:" + name, ("corpus", name, None)))
     n_rand = 200 if tier == "quick" else 5000
@@ -153,6 +157,21 @@ def run(tier, seed, replay=None):
             continue
         if a["status"] in ("rejected", "void") or b["status"] in ("rejected", "void"):
             stats["void"] += 1            # not accepted by both targets
+            continue
+        if meta[0] == "solo":
+            # a trap is a way of terminating: both abnormal = agreement, one only = disagreement
+            a_ab = (a["status"] == "badrun" and "TRAP" in a["msg"]) or (a["status"] == "ran" and a["halt"] == "panic")
+            b_ab = b["status"] == "ran" and b["halt"] == "panic"
+            c = meta[1]
+            same = (a_ab and b_ab) or (a["status"] == "ran" and b["status"] == "ran" and a["verdict"] is not None and a["verdict"]["agree"])
+            if same:
+                stats["agree"] += 1
+                stats["both_panic"] += bool(a_ab)
+            else:
+                chk.fail("C02|expr|%s|%s|%s" % (c["ty"], c["op"], c["sp"]),
+                         "%s %s on %d, %d: native %s, wasm %s" % (c["ty"], c["op"], progen.case_value(c, "a"), progen.case_value(c, "b"),
+                                                                  "ends abnormally (%s)" % a.get("msg", a.get("halt")) if a_ab else "prints %r" % a.get("out"),
+                                                                  "ends abnormally" if b_ab else "prints %r" % b.get("out")), rep)
             continue
         if b["status"] == "badrun" and a["status"] == "ran":
             cls = re.sub(r"#\d+|@\+\d+|\d+", "#", b["msg"])[:70]
